@@ -34,6 +34,9 @@ func c07Features(cs *cvxCase, clause string) map[string]any {
 			if cvxOptionNeedsEscape(r.Strip) || cvxOptionNeedsEscape(r.Prepend) {
 				f["option_needs_escape"] = true
 			}
+		case "resp-header":
+			f["answer"] = cs.Out.Resp
+			f["cfggzip"] = cs.C.CfgGzip
 		case "status":
 			f["answer"] = cs.Out.Resp
 			f["headers"] = cs.C.Hdrs
@@ -48,6 +51,8 @@ func c07Features(cs *cvxCase, clause string) map[string]any {
 			f["body"] = cs.Att.ReqBody
 			if clause == "resp-body" {
 				f["body"] = cs.Att.RespBody
+				f["answer"] = cs.Out.Resp
+				f["cfggzip"] = cs.C.CfgGzip
 			}
 		}
 	}
@@ -66,6 +71,9 @@ func c07Describe(cs *cvxCase) string {
 		s += fmt.Sprintf(" | route %s strip=%s prepend=%s host=%s tq=%s", cvxOpt(r.Src), cvxOpt(r.Strip), cvxOpt(r.Prepend), r.HostOpt, cvxQuery(r.TQuery))
 	}
 	s += fmt.Sprintf(" | headers=%s body=%d chunked=%v", cs.C.Hdrs, cs.Att.ReqBody, cs.Att.ReqChunked)
+	if cs.C.CfgGzip {
+		s += " gzip.contenttype=^text/"
+	}
 	if cs.Out.Kind == "upstream" {
 		s += " => upstream " + c07WantURI(cs) + " answer=" + cs.Out.Resp
 	} else {
@@ -198,6 +206,26 @@ func c07NoRoute(w *cvxWorld, j *cvxJob, fail func(clause, format string, a ...an
 	return len(cs.C.Flip) > 0 || len(cs.C.PageHist) > 0
 }
 
+// c07BadGateway: the instance of the route the lookup settled on refuses the connection.  fabio answers with an
+// error of its own (5xx) and the request is handed to nobody else: no upstream - of this or of any other route - sees it.
+func c07BadGateway(w *cvxWorld, j *cvxJob, fail func(clause, format string, a ...any)) bool {
+	cs := j.cs
+	cs.Att = &cvxAtt{}
+	got, err := w.doHTTPOnce(cs, j.id)
+	if err != nil {
+		w.errorf("case %d: %v (%s)", j.id, err, c07Describe(cs))
+		return false
+	}
+	if seen := w.take(j.id); seen != nil {
+		fail("upstream-contacted", "the instance of the route refuses connections, yet an upstream received the request: %s %s Host %q (client got status %d)",
+			seen.Method, seen.RequestURI, seen.Host, got.Status)
+	}
+	if got.Status < 500 || got.Status > 599 {
+		fail("status", "the instance of the route refuses connections: client got status %d, want an error answer of fabio (5xx)", got.Status)
+	}
+	return true
+}
+
 func c07Exec(w *cvxWorld, j *cvxJob) bool {
 	cs := j.cs
 	fail := func(clause, format string, a ...any) {
@@ -219,6 +247,9 @@ func c07Exec(w *cvxWorld, j *cvxJob) bool {
 	}
 	if cs.Out.Kind == "noroute" {
 		return c07NoRoute(w, j, fail)
+	}
+	if cs.Out.Kind == "badgateway" {
+		return c07BadGateway(w, j, fail)
 	}
 	got, rid, err := w.doHTTP(cs, j.id)
 	if errors.Is(err, errCvxTruncated) {
@@ -253,6 +284,10 @@ func c07Exec(w *cvxWorld, j *cvxJob) bool {
 			}
 			if gq != wq {
 				fail("query", "upstream saw query %q, want %q", gq, wq)
+			}
+			if gp == wp && gq == wq {
+				// the same path and parameters, another request-target: a "?" without parameters came or went
+				fail("query", "upstream saw request target %q, want %q", seen.RequestURI, wantURI)
 			}
 		}
 		if wh := c07WantHost(w, cs); seen.Host != wh {
